@@ -447,7 +447,7 @@ class Context:
                 elif getattr(self, "harness_ref", None) is not None:
                     module, hname = self.harness_ref
                     scenario = {"module": module, "harness": hname, "obligation": oid,
-                                "values": {k: _plain(model_value(m, t)) for k, t in self.symbols.items()}}
+                                "values": {k: _plain(model_value(m, t)) for k, t in self.symbols.items()}, "functions": model_functions(m)}
                     rec["scenario"] = scenario
                     rec["replay_fn"] = "symx.explorer:generic_replay"
                     try:
@@ -585,9 +585,10 @@ class ConcreteContext:
 
     concrete = True
 
-    def __init__(self, values, target):
+    def __init__(self, values, target, functions=None):
         self.values = values
         self.target = target
+        self.functions = functions or {}
         self.counter = {}
         self.symbols = {}
         self.missing = []
@@ -641,11 +642,48 @@ class ConcreteContext:
     def bool(self, name):
         return self._value(name, bool)
 
+    def ground(self, t):
+        """simplify a term whose only non-arithmetic parts are applications of the model's uninterpreted functions (abstract inputs
+        such as a Lévy measure known through finitely many values) to ground arguments"""
+        v = z3.simplify(t)
+        if z3.is_true(v) or z3.is_false(v) or V.concrete_value(v) is not None or not self.functions:
+            return v
+        cache = {}
+
+        def go(e):
+            k = e.get_id()
+            if k in cache:
+                return cache[k]
+            if z3.is_app(e) and e.num_args() > 0:
+                args = [go(a) for a in e.children()]
+                name = e.decl().name()
+                if e.decl().kind() == z3.Z3_OP_UNINTERPRETED and name in self.functions:
+                    vals = [V.concrete_value(z3.simplify(a)) for a in args]
+                    if any(x is None for x in vals):
+                        raise ReplayStop(f"application of {name} to a non-ground argument")
+                    tab = self.functions[name]
+                    key = ",".join(str(Fraction(x)) for x in vals)
+                    if key in tab["entries"]:
+                        r = tab["entries"][key]
+                    elif tab.get("else") is not None:
+                        r = tab["else"]
+                    else:
+                        raise ReplayStop(f"the model does not define {name}({key})")
+                    out = z3.BoolVal(r) if isinstance(r, bool) else (z3.IntVal(int(Fraction(r))) if e.sort().kind() == z3.Z3_INT_SORT else z3.RealVal(str(Fraction(r))))
+                else:
+                    out = e.decl()(*args)
+            else:
+                out = e
+            cache[k] = out
+            return out
+
+        return z3.simplify(go(v))
+
     def truth(self, c):
         if isinstance(c, SymBool):
             c = c.t
         if z3.is_expr(c):
-            v = z3.simplify(c)
+            v = self.ground(c)
             if z3.is_true(v):
                 return True
             if z3.is_false(v):
@@ -681,7 +719,7 @@ class ConcreteContext:
 
     def decide_int(self, t, soft=False):
         if is_sym(t):
-            v = V.concrete_value(z3.simplify(t.t))
+            v = V.concrete_value(self.ground(t.t))
             if v is None:
                 raise ReplayStop("non-ground integer in the concrete re-execution")
             return int(v)
@@ -712,6 +750,34 @@ def _plain(v):
     return v
 
 
+def model_functions(m):
+    """the model's interpretation of every uninterpreted function, as JSON-able tables (keys: comma-joined rational arguments)"""
+    out = {}
+    for d in m.decls():
+        if d.arity() == 0:
+            continue
+        try:
+            fi = m[d]
+            entries = {}
+            for row in fi.as_list()[:-1]:
+                args, val = row[:-1], row[-1]
+                vals = [V.concrete_value(a) for a in args]
+                if z3.is_algebraic_value(val):
+                    val = val.approx(30)
+                r = True if z3.is_true(val) else (False if z3.is_false(val) else V.concrete_value(val))
+                if r is None or any(x is None for x in vals):
+                    continue
+                entries[",".join(str(Fraction(x)) for x in vals)] = r if isinstance(r, bool) else str(Fraction(r))
+            e = fi.else_value()
+            if z3.is_algebraic_value(e):
+                e = e.approx(30)
+            ev = True if z3.is_true(e) else (False if z3.is_false(e) else V.concrete_value(e))
+            out[d.name()] = {"entries": entries, "else": None if ev is None else (ev if isinstance(ev, bool) else str(Fraction(ev)))}
+        except Exception:
+            continue
+    return out
+
+
 def generic_replay(sc):
     """Re-run harness `sc["harness"]` of module `sc["module"]` on the real code with every symbol pinned to the model's value."""
     import importlib
@@ -727,7 +793,7 @@ def generic_replay(sc):
             break
     if h is None:
         return None, f"harness {sc['harness']} not found in {sc['module']}"
-    cctx = ConcreteContext(sc["values"], sc["obligation"])
+    cctx = ConcreteContext(sc["values"], sc["obligation"], sc.get("functions"))
     prev = V.get_context()
     V.set_context(cctx)
     _clear_rpylib_caches()
